@@ -1213,6 +1213,9 @@ func main() {
 		}
 	}
 	r.P.Violations = collapseConfigs(r.P.Violations)
+	if r.Replay == "" && !r.IsWorker() {
+		runConcurrentParams(r) // two requests in flight on one route, a yielding custom constraint inside the matcher
+	}
 	ev := core.Evidence{
 		Level:      "exploration",
 		Exhaustive: true,
